@@ -896,7 +896,7 @@ static const unsigned HSVC[] = {
         VBI_SLICED_WSS_625, VBI_SLICED_CAPTION_625_F1, VBI_SLICED_CAPTION_625_F2, VBI_SLICED_CAPTION_625,
 };
 #define NHSVC ((int)(sizeof HSVC / sizeof *HSVC))
-#define NHLET (2 * NHSVC + 4)          /* add x9, remove x9, resize, change the field storage mode, decode a blank frame, decode the reference frame */
+#define NHLET (2 * NHSVC + 5)          /* add x9, remove x9, reset, resize, change the field storage mode, decode a blank frame, decode the reference frame */
 static const char *hsvc_name[] = { "B_L10", "B_L25", "B", "VPS", "VPS_F2", "WSS", "CC_F1", "CC_F2", "CC_625" };
 static struct frame HF;         /* reference frame: every service on its own line */
 static struct frame HFI, HBLI; /* both frames stored interlaced (letter "reconfigure": the same parameters with interlaced toggled) */
@@ -912,6 +912,7 @@ static const char *hist_letter(int l, void *arg)
         if (l == NHLET - 2) return "decode blank frame";
         if (l == NHLET - 3) return "set_sampling_par: sequential <-> interlaced";
         if (l == NHLET - 4) return "resize: second field 12 <-> 18 lines";
+        if (l == NHLET - 5) return "reset";
         snprintf(b, sizeof b, "%s %s", l < NHSVC ? "add" : "remove", hsvc_name[l % NHSVC]);
         return b;
 }
@@ -984,6 +985,13 @@ static int hist_run(const uint8_t *h, int n, uint64_t hash[2], void *arg)
                         want &= ~HSVC[l - NHSVC];
                         G = legacy ? vbi_raw_decoder_remove_services(&lrd, HSVC[l - NHSVC]) : vbi3_raw_decoder_remove_services(rd, HSVC[l - NHSVC]);
                         if (want & VBI_SLICED_TELETEXT_B) want |= G & VBI_SLICED_TELETEXT_B;      /* while a B level is wanted, the levels reported as decoded are what the caller gets */
+                }
+                else if (l == NHLET - 5) {
+                        /* all services are dropped, the parameters stay; what is added afterwards is decoded as on a new decoder
+                         * (seed C04-10: a job slot reused after the reset kept the id of its previous service) */
+                        if (legacy) { vbi_raw_decoder_reset(&lrd); rd = (vbi3_raw_decoder *) lrd.pattern; } else vbi3_raw_decoder_reset(rd);
+                        want = 0; G = vbi3_raw_decoder_services(rd);
+                        if (G) { report(entry, NULL, "services left after a reset", &c, ""); bad = 1; }
                 }
                 else if (l == NHLET - 4) {
                         /* the window changes (0.2: vbi_raw_decoder_resize(), documented to keep the services; vbi3: set_sampling_par).
@@ -1128,7 +1136,7 @@ int main(int argc, char **argv)
         mc_meta("rule", "one evaluation = one scan line (or one blank frame) through one entry point, compared record by record (count, id, ITU line, payload bits, canary records behind the returned count); distinct = one (waveform, sampling rate) work unit of slicer-grid, one (service set, line layout) unit of layout, one 1/64 payload range of all-payloads, one canonical decoder state of history; every unit decodes at least one transmitted line, refused configurations are counted as outcomes and not as evaluations of the value oracle");
         char gb[1400]; int o = 0;
         for (int w = 0; w < NWAVE; w++) o += snprintf(gb + o, sizeof gb - o, "%s%s %d rates %.3f-40 MHz", w ? ", " : "", SV[WAVE[w]].name, nrates[w], rates[w][0] / 1e6);
-        mc_meta("bound", "GRID, not a continuum. slicer-grid: 11 waveforms x sampling rates {uniform %d kHz steps from the property's minimum to 40 MHz} + {both edges of constant slicer step floor(256*rate/bit_rate), every %s} + 18 standard rates [%s] x samples_per_line {minimum holding the signal, +1, +7, first multiple of 720, 2048, one line period} x offset {earliest, middle, latest keeping the signal inside} x YUV420 with VBI levels at every rate and %d pixel formats (video levels, luma/green only, other channels garbage) at every 4th rate on every %s geometry x %d payloads per frame (all cyclic shifts of de Bruijn B(2,%d), all-0, all-1, single 1, single 0, 00/FF, 55, AA, 0F, walking 1) + blank lines. layout: %d service sets x 5 line layouts x sequential/interlaced x 4 transmit patterns x synchronous(known x unknown start per field)/non-synchronous x strict 0,1,2 x %d rates (13.5 MHz/720, 27 MHz/1440%s) x YUV420 + one rotating format. all-payloads: all 2^16 Caption 625, Caption 525 and all 2^14 WSS payloads at %d rates each. history: depth %d over 21 letters (decode of a blank frame; set_sampling_par toggling sequential/interlaced; add/remove of B_L10, B_L25, B, VPS, VPS_F2, WSS, CC_F1, CC_F2, CC_625; decode), both interfaces",
+        mc_meta("bound", "GRID, not a continuum. slicer-grid: 11 waveforms x sampling rates {uniform %d kHz steps from the property's minimum to 40 MHz} + {both edges of constant slicer step floor(256*rate/bit_rate), every %s} + 18 standard rates [%s] x samples_per_line {minimum holding the signal, +1, +7, first multiple of 720, 2048, one line period} x offset {earliest, middle, latest keeping the signal inside} x YUV420 with VBI levels at every rate and %d pixel formats (video levels, luma/green only, other channels garbage) at every 4th rate on every %s geometry x %d payloads per frame (all cyclic shifts of de Bruijn B(2,%d), all-0, all-1, single 1, single 0, 00/FF, 55, AA, 0F, walking 1) + blank lines. layout: %d service sets x 5 line layouts x sequential/interlaced x 4 transmit patterns x synchronous(known x unknown start per field)/non-synchronous x strict 0,1,2 x %d rates (13.5 MHz/720, 27 MHz/1440%s) x YUV420 + one rotating format. all-payloads: all 2^16 Caption 625, Caption 525 and all 2^14 WSS payloads at %d rates each. history: depth %d over 23 letters (decode of a blank frame; reset; resize of the second field; set_sampling_par toggling sequential/interlaced; add/remove of B_L10, B_L25, B, VPS, VPS_F2, WSS, CC_F1, CC_F2, CC_625; decode), both interfaces",
                 thorough ? 25 : 250, thorough ? "step value up to 1500 per waveform" : "n-th step value (160 per waveform)", gb,
                 thorough ? NFMT_ALL : NFMT_QUICK, thorough ? "2nd" : "3rd", npay, thorough ? 5 : 3, NSETS, thorough ? 3 : 2, thorough ? ", 35.46895 MHz/2048" : "", thorough ? 4 : 2, thorough ? 5 : 4);
         mc_meta("assume", "sampling rates between grid points, offsets between the three per geometry and samples_per_line values other than the six listed are not covered");
